@@ -21,7 +21,9 @@ THEOREMS = ['C04_tref_split_invariance', 'C04_tref_split_invariance_moist', 'C04
             'C04_unique_test_iff', 'C04_no_vertical_advection_closed_form',
             'C04_no_vertical_advection_uniform_invariance', 'C04_hyps_satisfiable', 'C04_modal_hyps_satisfiable',
             'C04_modal_moist_hyps_satisfiable', 'C04_no_vertical_advection_refuted', 'C04_tref_split_cloud_refuted',
-            'C04_tref_split_invariance_R']
+            'C04_tref_split_invariance_R', 'C04_whole_state_is_assembly', 'C04_concrete_operators_linear',
+            'C04_whole_state_temperature_invariance', 'C04_whole_state_divergence_invariance',
+            'C04_whole_state_vorticity_invariance', 'C04_whole_state_implicit_linear', 'C04_whole_state_resolvent']
 LEVEL = 'proof'
 LEVEL_TEXT = ('machine-checked theorems (Coq) for every field, every layer count K>=1, all level sets, all column data and '
               'any two reference profiles with the same absolute temperature: the nodal temperature tendency '
@@ -33,9 +35,18 @@ LEVEL_TEXT = ('machine-checked theorems (Coq) for every field, every layer count
               'hypotheses on abstract linear horizontal operators (round trip, div/curl of the velocity, div/curl of '
               'sec2.grad, laplacian of a constant, Leibniz rule for q.grad lnps; re-checked numerically on every explored '
               'grid); the cloud-moist class with condensate and include_vertical_advection=False with non-uniform profiles '
-              'are refuted with concrete witnesses and their exact defect / closed form is proved')
+              'are refuted with concrete witnesses and their exact defect / closed form is proved; '
+              'END-TO-END: the executable whole-state model (compute_diagnostic_state, explicit_terms, implicit_terms, implicit_inverse of the dry '
+              'class composed from the concrete transforms and spectral operators) is proved to be, coefficient by coefficient, the assembled '
+              'operator the modal theorems are about; the concrete operators are proved linear and lap(const)=0, so the modal invariance holds for '
+              'the executable composition under the four grid-exactness hypotheses only; implicit_inverse_full inverts 1 - eta*implicit_terms_full '
+              'given left-inverse tables')
 LEVEL_NOTE = ('theorems are about the Gallina model Model/PrimEq.v (+ Model/Implicit.v, Model/Sigma.v); horizontal '
-              'transforms are abstract linear operators in the theorems and are not executed in the model; the model is '
+              'transforms are abstract linear operators in the column theorems; the whole-state model Model/PrimEqFull.v executes the '
+              'complete composition (dry class, reference layout, include_vertical_advection=True, dense, method split) in exact rationals on '
+              'the implementation\'s own tables against the real explicit_terms / implicit_terms / implicit_inverse on tiny grids; not proved: the '
+              'last lift from the concrete-operator theorems to two executed states (needs to_nodal(1)=1 and range extensionality of the column '
+              'functions); the moist classes are not in the whole-state model; the model is also '
               'tied to the code by differential correspondence on nodal columns of recorded to_modal arguments; '
               'log(centers) enters as a table; scope: include_vertical_advection=True (the default) - with the option off '
               'the code drops the vertical advection of T\' but keeps that of T_ref (explicitly and inside H), so totals '
@@ -100,7 +111,9 @@ GRIDS = {'g5': dict(longitude_wavenumbers=4, total_wavenumbers=5, longitude_node
          'wide': dict(longitude_wavenumbers=3, total_wavenumbers=4, longitude_nodes=64, latitude_nodes=5),
          'tall': dict(longitude_wavenumbers=3, total_wavenumbers=4, longitude_nodes=10, latitude_nodes=48),
          'g47': dict(longitude_wavenumbers=4, total_wavenumbers=7, longitude_nodes=12, latitude_nodes=9),
-         'g5l8': dict(longitude_wavenumbers=4, total_wavenumbers=5, longitude_nodes=8, latitude_nodes=6)}
+         'g5l8': dict(longitude_wavenumbers=4, total_wavenumbers=5, longitude_nodes=8, latitude_nodes=6),
+         # the tiny grid of the whole-state END-TO-END model (exactness obligations are checked on it as well)
+         't4': dict(longitude_wavenumbers=3, total_wavenumbers=4, longitude_nodes=8, latitude_nodes=4)}
 
 
 def grid_of(name):
@@ -335,6 +348,21 @@ def _generate(ctx):
         yield 'jit_order', {'cls': cls, 'grid': 'g5', 'K': K, 'b': levels(K, 0), 'T1': profile(K), 'T2': profile(K), 'oro': 1,
                             'ntr': 1 if cls == 'dry' else 0, 'seed': int(rng.integers(1 << 30)), 'lmax': 9, 'amp': 1.0}
     yield 'cloud_nonzero', dict(CLOUD_ARGS)
+    # ---- whole-state END-TO-END model (Model/PrimEqFull.v) on tiny real grids ----
+    def plateau(K):
+        t = 250.0 + rng.integers(-160, 161, size=K) / 4.0
+        if K > 1: t[1] = t[0]
+        return t.tolist()
+    # model cost (exact rationals): composed t4 K=2 ~13 s, K=3 + tracer ~35 s; staged ~7 s
+    wplan = [('t4', 2, 1, 0, 'full'), ('t4', 3, 0, 1, 'staged'), ('t4', 2, 1, 1, 'staged')] if quick else \
+            [('t4', 2, 1, 0, 'full'), ('t4', 3, 0, 1, 'both'), ('t4', 1, 1, 1, 'full'), ('t5', 2, 1, 0, 'full'), ('t5', 3, 0, 1, 'staged'),
+             ('t4', 3, 1, 2, 'both'), ('t5', 2, 0, 1, 'staged')]
+    for r, (tg, K, oro, ntr, mode) in enumerate(wplan):
+        yield 'whole_state', {'tgrid': tg, 'K': K, 'b': levels(K, r), 'T1': plateau(K) if r % 2 else profile(K), 'T2': profile(K),
+                              'oro': oro, 'ntr': ntr, 'mode': mode, 'eta': [0.5, 0.125, 2.0][r % 3], 'seed': int(rng.integers(1 << 30)),
+                              'phys': PHYS[r % 4]}
+    # the exactness hypotheses of the concrete-operator theorems on the tiny grid (Leibniz: moist only, degree <= 1)
+    yield 'obligations', {'grid': 't4', 'seed': int(rng.integers(1 << 30)), 'lq': 1}
 
 
 # ---------------------------------------------------------------------------
@@ -736,5 +764,184 @@ def r_jit_order(ctx, a):
         ctx.oracle_close('jit: explicit+implicit %s tendency is the same for two reference profiles' % fld, outs[0][k], outs[1][k], scale=sc_)
 
 
-RUNNERS = {'jit_order': r_jit_order, 'object_reuse': r_object_reuse, 'corr': r_corr, 't_omega': r_t_omega, 'oracle': r_oracle, 'cloud_nonzero': r_cloud_nonzero,
+
+# ---------------------------------------------------------------------------
+# whole-state correspondence: the END-TO-END executable model (Model/PrimEqFull.v) against
+# compute_diagnostic_state / explicit_terms / implicit_terms / implicit_inverse on a tiny real grid
+# ---------------------------------------------------------------------------
+TINY = {'t4': dict(longitude_wavenumbers=3, total_wavenumbers=4, longitude_nodes=8, latitude_nodes=4),
+        't5': dict(longitude_wavenumbers=4, total_wavenumbers=5, longitude_nodes=12, latitude_nodes=6)}
+
+
+def tiny_grid(name):
+    j = J()
+    key = 'tiny_' + name
+    if key not in j['grids']:
+        j['grids'][key] = j['sh'].Grid(spherical_harmonics_impl=j['sh'].RealSphericalHarmonics, **TINY[name])
+    return j['grids'][key]
+
+
+def ws_state(a, grid, K):
+    """deterministic whole state: coefficients are small dyadic rationals (keeps the exact model affordable)"""
+    rng = np.random.default_rng([int(a['seed']), 21])
+    L = grid.total_wavenumbers
+    lmax = int(a.get('lmax', L - 2))
+    q = float(a.get('quant', 64))
+    def fld(lead, zero_mean, scale):
+        x = np.round(rand_modal(rng, grid, lead, lmax, zero_mean, 1.0) * q) / q * scale
+        return x
+    f = dict(vort=fld((K,), True, 1.0), div=fld((K,), True, 1.0), Tdev=fld((K,), False, 16.0), lnps=fld((1,), False, 0.125),
+             oro=fld((), False, 1.0 / 64) if a.get('oro') else np.zeros(grid.modal_shape))
+    f['tracers'] = {'tracer_%d' % n: fld((K,), False, 1.0) for n in range(int(a.get('ntr', 0)))}
+    return f
+
+
+def flat_state(st, names):
+    d = st.asdict()
+    out = [np.asarray(d['vorticity'], dtype=np.float64), np.asarray(d['divergence'], dtype=np.float64),
+           np.asarray(d['temperature_variation'], dtype=np.float64), np.asarray(d['log_surface_pressure'], dtype=np.float64)]
+    return out + [np.asarray(d['tracers'][n], dtype=np.float64) for n in names]
+
+
+def split_state(m, K, R, L, ntr):
+    """model output list -> [vort, div, temp, lnps, tracers...] as flat lists"""
+    n3 = K * R * L
+    cuts = [n3, n3, n3, R * L] + [n3] * ntr
+    out = []; pos = 0
+    for c in cuts:
+        out.append(m[pos:pos + c]); pos += c
+    assert pos == len(m)
+    return out
+
+
+def r_whole_state(ctx, a):
+    j = J(); pe = j['pe']; sh = j['sh']; specs = specs_of(a.get('phys', 'default'))
+    grid = tiny_grid(a['tgrid'])
+    vert = j['sc'].SigmaCoordinates(np.asarray(a['b'], dtype=np.float64))
+    coords = j['cs'].CoordinateSystem(grid, vert)
+    K = vert.layers; ntr = int(a.get('ntr', 0))
+    M, L = grid.longitude_wavenumbers, grid.total_wavenumbers
+    I, Jn = grid.nodal_shape; R = grid.modal_shape[0]
+    basis = grid.spherical_harmonics.basis
+    tf, tp, tw = np.asarray(basis.f), np.asarray(basis.p), np.asarray(basis.w)
+    ta, tb = (np.asarray(t) for t in grid._derivative_recurrence_weights)
+    sec2 = np.asarray(grid.sec2_lat); sin_lat = np.asarray(grid.nodal_axes[1])
+    ok_shapes = (grid.modal_shape == (2 * M - 1, L) and tf.shape == (I, R) and tp.shape == (R, Jn, L) and tw.shape == (Jn,)
+                 and ta.shape == (R, L) and tb.shape == (R, L) and sec2.shape == (Jn,) and sin_lat.shape == (Jn,))
+    ctx.exact('whole state: table shapes of the reference layout', bool(ok_shapes), True)
+    if not ok_shapes: return
+    f = ws_state(a, grid, K)
+    names = sorted(f['tracers'])
+    one = np.zeros(grid.modal_shape); one[0, 0] = 2.0 * np.sqrt(np.pi)
+    ls = np.log(vert.centers)
+    eta = float(a.get('eta', 0.5))
+    ints = [M, L, I, Jn, K, ntr]
+    Tbase = float(a.get('Tbase', 250.0))
+    # gains of the linear operators (rigorous bounds for the comparison scales)
+    GM = float(np.max(np.einsum('j,ia,ajl->al', np.abs(tw), np.abs(tf), np.abs(tp))))       # |to_modal z| <= GM max|z|
+    GN = float(np.max(np.einsum('ia,ajl->ij', np.abs(tf), np.abs(tp))))                     # |to_nodal x| <= GN max|x|
+    GD = ((L + 2) * (A(ta) + A(tb)) + M) / grid.radius                                      # derivative operators
+    lam = np.asarray(grid.laplacian_eigenvalues)
+    th = vert.layer_thickness
+    alpha = pe.get_sigma_ratios(vert)
+    cmin = float(np.min(vert.center_to_center)) if K > 1 else 1.0
+    profiles = [a['T1'], a['T2']]
+    totals_ = []
+    for pi, T in enumerate(profiles):
+        Tref = np.asarray(T, dtype=np.float64)
+        eq = pe.PrimitiveEquations(Tref, f['oro'], coords, specs)
+        Tp = f['Tdev'] + (Tbase - Tref)[:, None, None] * one
+        st = pe.State(f['vort'], f['div'], Tp, f['lnps'], dict(f['tracers']))
+        e = eq.explicit_terms(st); im = eq.implicit_terms(st)
+        fe = flat_state(e, names); fi = flat_state(im, names)
+        totals_.append((fe, fi))
+        if pi >= int(a.get('model_profiles', 1)): continue
+        tr_flat = np.concatenate([f['tracers'][n].ravel() for n in names]) if names else []
+        base = [tf.ravel(), tp.ravel(), tw, ta.ravel(), tb.ravel(), sec2, sin_lat,
+                [grid.radius, specs.angular_velocity, specs.g, specs.R, specs.kappa, eta], ls, a['b'], Tref, f['oro'].ravel(),
+                f['vort'].ravel(), f['div'].ravel(), Tp.ravel(), f['lnps'].ravel(), tr_flat]
+        aux = pe.compute_diagnostic_state(st, coords)
+        u, v = (np.asarray(t) for t in aux.cos_lat_u)
+        gx, gy = (np.asarray(t)[0] for t in aux.cos_lat_grad_log_sp)
+        nod = [np.asarray(aux.vorticity), np.asarray(aux.divergence), np.asarray(aux.temperature_variation), u, v, gx, gy] \
+            + [np.asarray(aux.tracers[n]) for n in names]
+        # ---- scales: bounds on the magnitude of the terms of each output ----
+        S2 = A(sec2); fc = 2 * abs(specs.angular_velocity)
+        U = (A(u) * A(gx) + A(v) * A(gy)) * S2; G = A(nod[1]) + U; SD = 2 * G
+        VT = lambda w_, x_: w_ * 2 * x_ / cmin
+        GP = 2 * A(alpha) * G / float(np.min(th))
+        TT = A(Tref) + A(nod[2])
+        S_ad = specs.kappa * TT * (U + GP)
+        S_tot = A(nod[2]) * A(nod[1]) + VT(SD, A(nod[2])) + VT(SD, A(Tref)) + S_ad
+        S_c = (A(u) + A(v)) * (A(nod[0]) + fc) * S2 + (VT(SD, max(A(u), A(v))) + specs.R * A(nod[2]) * max(A(gx), A(gy))) * S2
+        S_ke = (A(u) ** 2 + A(v) ** 2) * S2
+        S_hs = lambda x_: max(A(u), A(v)) * x_ * S2
+        sc_e = [GM * S_c * GD, GM * S_c * GD + GM * S_ke * A(lam) + specs.g * A(f['oro']) * A(lam),
+                GM * (S_tot + S_hs(A(nod[2])) * GD), GM * U] \
+            + [GM * (VT(SD, A(nod[7 + n])) + A(nod[7 + n]) * A(nod[1]) + S_hs(A(nod[7 + n])) * GD) for n in range(ntr)]
+        sc_e = [s_ + 1e-300 for s_ in sc_e]
+        hs = specs.kappa * A(Tref) * 2 * A(alpha) / float(np.min(th)) + 2 * A(np.diff(Tref)) / (2 * float(np.min(th))) + 1e-300
+        sc_i = [1.0, A(lam) * (specs.R * A(alpha) * 2 * K * A(Tp) * 8 + specs.R * A(Tref) * A(f['lnps'])) + 1e-300,
+                hs * K * A(f['div']) * 8 + 1e-300, A(f['div']) + 1e-300] + [1.0] * ntr
+        fields = ['vorticity', 'divergence', 'temperature_variation', 'log_surface_pressure'] + ['tracer'] * ntr
+        mode = a.get('mode', 'full')
+        # ---- stage A: compute_diagnostic_state ----
+        if mode in ('staged', 'both'):
+            md = ctx.model.call(23, ints, base)
+            n3 = K * I * Jn
+            cuts = [n3] * 5 + [I * Jn] * 2 + [n3] * ntr
+            nsc = [GN * A(f['vort']), GN * A(f['div']), GN * A(Tp), GN * GD * (A(f['vort']) + A(f['div'])),
+                   GN * GD * (A(f['vort']) + A(f['div'])), GN * GD * A(f['lnps']), GN * GD * A(f['lnps'])] + [GN * A(f['tracers'][n]) for n in names]
+            nn = ['vorticity', 'divergence', 'temperature_variation', 'cos_lat_u[0]', 'cos_lat_u[1]', 'cos_lat_grad_log_sp[0]',
+                  'cos_lat_grad_log_sp[1]'] + ['tracer'] * ntr
+            pos = 0
+            for arr_, c_, s_, n_ in zip(nod, cuts, nsc, nn):
+                ctx.corr('whole state: compute_diagnostic_state ' + n_, arr_, md[pos:pos + c_], scale=s_ + 1e-300); pos += c_
+            # ---- stage B: explicit_terms from the implementation's own diagnostic state ----
+            bb = base[:12] + [x_.ravel() for x_ in nod[:7]] + [np.concatenate([x_.ravel() for x_ in nod[7:]]) if ntr else []]
+            mb = split_state(ctx.model.call(24, ints, bb), K, R, L, ntr)
+            for x_, y_, s_, n_ in zip(fe, mb, sc_e, fields):
+                ctx.corr('whole state (from the diagnostic state): explicit_terms ' + n_, x_, y_, scale=s_)
+        # ---- fully composed: state -> explicit_terms ----
+        if mode in ('full', 'both'):
+            me = split_state(ctx.model.call(20, ints, base), K, R, L, ntr)
+            for x_, y_, s_, n_ in zip(fe, me, sc_e, fields):
+                ctx.corr('whole state (composed): explicit_terms ' + n_, x_, y_, scale=s_)
+                ctx.exact('whole state: explicit_terms %s exactly zero at the clipped total wavenumber' % n_,
+                          bool(np.all(x_[..., -1] == 0)), all(v_ == 0 for v_ in np.asarray(y_, dtype=object).reshape(x_.shape)[..., -1].ravel()))
+        mi = split_state(ctx.model.call(21, ints, base), K, R, L, ntr)
+        for x_, y_, s_, n_ in zip(fi, mi, sc_i, fields):
+            ctx.corr('whole state: implicit_terms ' + n_, x_, y_, scale=s_)
+        # ---- implicit_inverse, both signs of the step; np.linalg.inv is an input table of the model ----
+        for sgn in (1.0, -1.0):
+            step = sgn * eta
+            mat = pe._get_implicit_term_matrix(step, coords, Tref, specs.kappa, specs.R)
+            inv = np.linalg.inv(mat)
+            bi = list(base); bi[7] = base[7][:5] + [step]
+            mm = ctx.model.call(25, ints, bi)
+            ctx.corr('whole state: _get_implicit_term_matrix (step %+g)' % step, mat, mm, scale=A(mat))
+            res = max(A(np.einsum('lij,ljk->lik', inv, mat) - np.eye(2 * K + 1)), A(np.einsum('lij,ljk->lik', mat, inv) - np.eye(2 * K + 1)))
+            ctx.table_obligation('np.linalg.inv(implicit_matrix) is a two-sided inverse on grid %s, K=%d' % (a['tgrid'], K),
+                                 res <= 2.0 ** -36 * max(1.0, A(inv) * A(mat)), {'residual': res})
+            out = flat_state(eq.implicit_inverse(st, step), names)
+            mo = split_state(ctx.model.call(22, ints, bi + [inv.ravel()]), K, R, L, ntr)
+            sv = A(inv) * (2 * K + 1) * max(A(f['div']), A(Tp), A(f['lnps']))
+            sc_v = [A(f['vort']) + 1e-300, sv, sv, sv] + [A(f['tracers'][n]) + 1e-300 for n in names]
+            for x_, y_, s_, n_ in zip(out, mo, sc_v, fields):
+                ctx.corr('whole state: implicit_inverse %s (step %+g)' % (n_, step), x_, y_, scale=s_)
+            # the resolvent identity on the implementation: inverse(x - step * implicit_terms(x)) = x
+            back = flat_state(eq.implicit_inverse(st - step * im, step), names)
+            for x_, y_, s_, n_ in zip(back, flat_state(st, names), sc_v, fields):
+                ctx.oracle_close('whole state: implicit_inverse(x - eta*implicit_terms(x), eta) = x (%s)' % n_, x_, y_, scale=s_)
+    # ---- the property on the whole-state outputs ----
+    (e1, i1), (e2, i2) = totals_
+    fields = ['vorticity', 'divergence', 'temperature_variation', 'log_surface_pressure'] + ['tracers'] * ntr
+    for k, n_ in enumerate(fields):
+        sc_ = max(A(e1[k]), A(i1[k]), A(e2[k]), A(i2[k]), 1e-30)
+        ctx.oracle_close('dry: explicit+implicit %s tendency is the same for two reference profiles' % n_, e1[k] + i1[k], e2[k] + i2[k], scale=sc_)
+    ctx.oracle('reference profiles differ (test not vacuous)', a['T1'] != a['T2'], None)
+    ctx.count('whole_state:%s K=%d ntr=%d oro=%d %s' % (a['tgrid'], K, ntr, int(bool(a.get('oro'))), a.get('mode', 'full')))
+
+
+RUNNERS = {'whole_state': r_whole_state, 'jit_order': r_jit_order, 'object_reuse': r_object_reuse, 'corr': r_corr, 't_omega': r_t_omega, 'oracle': r_oracle, 'cloud_nonzero': r_cloud_nonzero,
            'obligations': r_obligations}
